@@ -2,42 +2,65 @@
    Only statements, each closed by [exact], each followed by Print Assumptions.
    Model: Store/C20AutoInc.v (GetNextAutoIncrementValue, AutoIncrement.Eval, tableEditor.Insert's counter bump,
    SetAutoIncrementValue, statement discard, insertIter.updateLastInsertId, insertRowHandler).
-   [guarded s h]: no ALTER TABLE ... AUTO_INCREMENT = n in the history lowers the counter (n >= counter at that time). *)
+   updateAutoIncrementSafe included (the counter pins at the column type's maximum). *)
 From Coq Require Import List ZArith Sorting.Sorted.
 Import ListNotations.
 From GMS Require Import Store.C20AutoInc Store.C20AutoIncProofs.
 Open Scope Z_scope.
 
-(* over all guarded histories of INSERT / INSERT IGNORE (explicit, generated, negative ids), DELETE and ALTER from the
-   empty table: the counter exceeds every stored id ... *)
+(* [guarded tmax init h]: no ALTER lowers the counter and the counter stays below the column type's maximum tmax.
+   Over all such histories of INSERT / INSERT IGNORE (explicit, generated, negative ids; rows may also be duplicates in a
+   unique column), DELETE and ALTER from the empty table: the counter exceeds every stored id ... *)
 Theorem C20_counter_exceeds_every_stored_id :
-  forall h, guarded init h = true -> Forall (fun x => x < ctr (run init h)) (ids (run init h)).
-Proof. exact (fun h Hg => I_ids _ (run_inv h init init_inv Hg)). Qed.
+  forall tmax h, guarded tmax init h = true -> Forall (fun x => x < ctr (run tmax init h)) (ids (run tmax init h)).
+Proof. exact (fun tmax h Hg => I_ids _ (run_inv tmax h init init_inv Hg)). Qed.
 Print Assumptions C20_counter_exceeds_every_stored_id.
 
 (* ... and every id that was EVER stored (deleted ones included) and every id generated so far: the next generated id
    (= the counter, C20_generated_id_is_the_counter) is fresh and larger than any explicitly inserted one *)
 Theorem C20_counter_exceeds_every_id_ever_used :
-  forall h, guarded init h = true ->
-    Forall (fun x => x < ctr (run init h)) (seen (run init h)) /\ Forall (fun x => x < ctr (run init h)) (gens (run init h)).
-Proof. exact (fun h Hg => conj (I_seen _ (run_inv h init init_inv Hg)) (I_gens _ (run_inv h init init_inv Hg))). Qed.
+  forall tmax h, guarded tmax init h = true ->
+    Forall (fun x => x < ctr (run tmax init h)) (seen (run tmax init h)) /\
+    Forall (fun x => x < ctr (run tmax init h)) (gens (run tmax init h)).
+Proof. exact (fun tmax h Hg => conj (I_seen _ (run_inv tmax h init init_inv Hg)) (I_gens _ (run_inv tmax h init init_inv Hg))). Qed.
 Print Assumptions C20_counter_exceeds_every_id_ever_used.
 
 Theorem C20_generated_id_is_the_counter :
-  forall ign s s', row_step ign s None = Some s' ->
-    s' = s \/ (gens s' = gens s ++ [ctr s] /\ ids s' = ids s ++ [ctr s] /\ ctr s' = ctr s + 1).
+  forall tmax ign s ud s', row_step tmax ign s (None, ud) = Some s' ->
+    s' = s \/ (gens s' = gens s ++ [ctr s] /\ ids s' = ids s ++ [ctr s] /\ ctr s' = bump tmax (ctr s)).
 Proof. exact generated_is_counter. Qed.
 Print Assumptions C20_generated_id_is_the_counter.
 
 (* the generated ids of committed rows are strictly increasing over the table's lifetime *)
 Theorem C20_generated_ids_strictly_increasing :
-  forall h, guarded init h = true -> StronglySorted Z.lt (gens (run init h)).
-Proof. exact (fun h Hg => I_sorted _ (run_inv h init init_inv Hg)). Qed.
+  forall tmax h, guarded tmax init h = true -> StronglySorted Z.lt (gens (run tmax init h)).
+Proof. exact (fun tmax h Hg => I_sorted _ (run_inv tmax h init init_inv Hg)). Qed.
 Print Assumptions C20_generated_ids_strictly_increasing.
+
+(* saturation (updateAutoIncrementSafe): over ALL histories whose explicit ids and ALTER values fit the column type the
+   counter never exceeds the type maximum - it pins there, it does not wrap ... *)
+Theorem C20_counter_pins_at_type_maximum :
+  forall tmax h, 1 <= tmax -> forallb (ev_fits tmax) h = true -> ctr (run tmax init h) <= tmax.
+Proof. exact (fun tmax h Ht Hf => run_le tmax h init Ht Hf). Qed.
+Print Assumptions C20_counter_pins_at_type_maximum.
+
+(* ... and while the maximum is stored, a generated insert fails with a duplicate key and leaves the counter there *)
+Theorem C20_generated_insert_at_maximum_fails :
+  forall tmax s, ctr s = tmax -> In tmax (ids s) ->
+    snd (step tmax s (EInsert false [(None, false)])) = (false, 0) /\
+    ctr (fst (step tmax s (EInsert false [(None, false)]))) = tmax.
+Proof. exact pinned_insert_fails. Qed.
+Print Assumptions C20_generated_insert_at_maximum_fails.
+
+(* at the maximum "not reused after deletes" is false of the faithful model: TINYINT, 127 generated, deleted, generated again *)
+Theorem C20_maximum_reused_after_delete_refuted :
+  exists h, gens (run 127 init h) = [127; 127] /\ ctr (run 127 init h) = 127.
+Proof. exact (ex_intro _ [EAlter 127; EInsert false [g]; EDelEq 127; EInsert false [g]] max_id_reused_after_delete). Qed.
+Print Assumptions C20_maximum_reused_after_delete_refuted.
 
 (* LAST_INSERT_ID() after a successful plain INSERT that generates a value is the first value it generated (any state) *)
 Theorem C20_last_insert_id_is_first_generated :
-  forall s specs s' iid, step s (EInsert false specs) = (s', (true, iid)) -> 0 <= first_gen_index specs ->
+  forall tmax s specs s' iid, step tmax s (EInsert false specs) = (s', (true, iid)) -> 0 <= first_gen_index specs ->
     exists g rest, gens s' = gens s ++ g :: rest /\ lid s' = g.
 Proof. exact plain_insert_lid. Qed.
 Print Assumptions C20_last_insert_id_is_first_generated.
@@ -45,32 +68,29 @@ Print Assumptions C20_last_insert_id_is_first_generated.
 (* false of the faithful model without the guard: after ids 1,2,3, ALTER TABLE t AUTO_INCREMENT = 2 is taken literally;
    the counter (2) is below the stored id 3 and the next INSERT of a generated id fails with a duplicate key *)
 Theorem C20_counter_exceeds_every_stored_id_refuted :
-  exists h, guarded init h = false /\ ctr (run init h) = 2 /\ In 3 (ids (run init h)) /\
-            snd (step (run init h) (EInsert false [None])) = (false, 0).
-Proof.
-  exact (ex_intro _ [EInsert false [None; None; None]; EAlter 2]
-           (conj (proj1 alter_below_max_stuck) (proj2 alter_below_max_stuck))).
-Qed.
+  exists h, guarded big init (h ++ [EInsert false [g]]) = false /\ ctr (run big init h) = 2 /\ In 3 (ids (run big init h)) /\
+            snd (step big (run big init h) (EInsert false [g])) = (false, 0).
+Proof. exact (ex_intro _ [EInsert false [g; g; g]; EAlter 2] alter_below_max_stuck). Qed.
 Print Assumptions C20_counter_exceeds_every_stored_id_refuted.
 
 (* false for INSERT IGNORE: a skipped row does not count down firstGeneratedAutoIncRowIdx, so LAST_INSERT_ID() is taken from a
    later row: INSERT IGNORE (1 duplicate),(NULL -> 2),(20) leaves LAST_INSERT_ID() = 20 *)
 Theorem C20_last_insert_id_ignore_refuted :
-  exists s specs, snd (step s (EInsert true specs)) = (true, 2) /\
-                  gens (fst (step s (EInsert true specs))) = [1; 2] /\ lid (fst (step s (EInsert true specs))) = 20.
-Proof. exact (ex_intro _ (run init [EInsert false [None]]) (ex_intro _ [Some 1; None; Some 20] ignore_lid_shift)). Qed.
+  exists s specs, snd (step big s (EInsert true specs)) = (true, 2) /\
+                  gens (fst (step big s (EInsert true specs))) = [1; 2] /\ lid (fst (step big s (EInsert true specs))) = 20.
+Proof. exact (ex_intro _ (run big init [EInsert false [g]]) (ex_intro _ [x 1; g; x 20] ignore_lid_shift)). Qed.
 Print Assumptions C20_last_insert_id_ignore_refuted.
 
 (* false for the OK packet: OkResult.InsertID is the id of the first inserted row, generated or not:
    INSERT (5),(NULL) reports 5 while the generated value (and LAST_INSERT_ID()) is 6 *)
 Theorem C20_ok_insert_id_is_first_generated_refuted :
-  exists specs, snd (step init (EInsert false specs)) = (true, 5) /\
-                gens (fst (step init (EInsert false specs))) = [6] /\ lid (fst (step init (EInsert false specs))) = 6.
-Proof. exact (ex_intro _ [Some 5; None] insert_id_explicit_first). Qed.
+  exists specs, snd (step big init (EInsert false specs)) = (true, 5) /\
+                gens (fst (step big init (EInsert false specs))) = [6] /\ lid (fst (step big init (EInsert false specs))) = 6.
+Proof. exact (ex_intro _ [x 5; g] insert_id_explicit_first). Qed.
 Print Assumptions C20_ok_insert_id_is_first_generated_refuted.
 
 Example C20_nonvacuous :
-  guarded init [EInsert false [None; Some 7; None]; EDelGe 7; EAlter 9; EInsert true [Some 1; None]] = true /\
-  gens (run init [EInsert false [None; Some 7; None]; EDelGe 7; EAlter 9; EInsert true [Some 1; None]]) = [1; 8; 9].
+  guarded big init [EInsert false [g; x 7; g]; EDelGe 7; EAlter 9; EInsert true [x 1; g; (None, true)]] = true /\
+  gens (run big init [EInsert false [g; x 7; g]; EDelGe 7; EAlter 9; EInsert true [x 1; g; (None, true)]]) = [1; 8; 9].
 Proof. split; vm_compute; reflexivity. Qed.
 Print Assumptions C20_nonvacuous.
